@@ -2628,7 +2628,7 @@ namespace igris
                 return -1;
             if (len > m_size)
                 return -1;
-            for (size_t i = pos; i < m_size - len; i++)
+            for (size_t i = pos; i <= m_size - len; i++)
             {
                 if (memcmp(_data + i, str, len) == 0)
                     return i;
